@@ -1,2 +1,192 @@
-(* Props/C10.v — the property theorems of C10 and nothing else. *)
-From Verif Require Import Base BodyBuffer TxBody.
+(* Props/C10.v — the property theorems of C10 and nothing else.
+   C10: body buffering is byte-faithful and limits are enforced exactly.
+
+   Vocabulary (TxBody.v / TxBodyProofs.v): [tb_step] is the model of WriteRequestBody /
+   ReadRequestBodyFrom / ProcessRequestBody and the response twins (direction in the
+   configuration); [init c] is a fresh transaction after its headers phase; [tb_final c s ks] the
+   state after the calls ks, [tb_rets] their return values; [supplied ks] the concatenation of the
+   bytes the calls supplied; [stored s] what a body reader yields; [L c] the limit;
+   [wf_cfg] = WAF.Validate's constraints (0 < memory limit <= limit <= 1 GiB); [active] = engine not
+   Off and body access on; [writes_ok ws] = ws are slice / reader(with Len) / reader(without Len)
+   writes of fewer than 2^63-2^30 bytes each, in any mix; [calls_ok ks] additionally allows explicit
+   Process...Body calls anywhere. *)
+From Coq Require Import ZifyBool.
+From Verif Require Import Base BodyBuffer BodyBufferProofs TxBody TxBodyProofs.
+Open Scope Z_scope.
+
+(* ProcessPartial: whatever the chunking and the mix of entry points, the stored bytes are exactly the
+   first min(limit, size) supplied bytes, and the data-error flag says whether the limit was reached *)
+Theorem C10_stored_prefix_partial : forall c,
+  wf_cfg c -> active c -> c_action c = ProcessPartial -> forall ks, calls_ok ks ->
+  stored (tb_final c (init c) ks) = firstn (Z.to_nat (L c)) (supplied ks)
+  /\ s_dataerr (tb_final c (init c) ks) = (L c <=? blen (supplied ks)).
+Proof. exact pp_stored_prefix. Qed.
+Print Assumptions C10_stored_prefix_partial.
+
+(* Reject, below the limit: everything supplied is stored, nothing refused, no data error *)
+Theorem C10_stored_prefix_reject : forall c,
+  wf_cfg c -> active c -> c_action c = Reject -> forall ws, writes_ok ws -> blen (supplied ws) < L c ->
+  let s := tb_final c (init c) ws in
+  stored s = supplied ws /\ s_intr s = None /\ s_dataerr s = false.
+Proof. exact rj_below. Qed.
+Print Assumptions C10_stored_prefix_reject.
+
+(* Reject: a call is answered with 413 (request) / 500 (response) exactly when the cumulative size
+   supplied up to and including it reaches the limit; never an error, never a panic; the refusing call
+   reports n = 0 *)
+Theorem C10_reject_exact : forall c,
+  wf_cfg c -> active c -> c_action c = Reject -> forall ws k, writes_ok (ws ++ [k]) ->
+  let r := snd (tb_step c (tb_final c (init c) ws) k) in
+  r_intr r = (if L c <=? blen (supplied (ws ++ [k])) then Some (limit_status (c_dir c)) else None)
+  /\ r_err r = false /\ r_panic r = false
+  /\ (blen (supplied ws) < L c ->
+      r_n r = if L c <=? blen (supplied (ws ++ [k])) then 0 else blen (call_data k)).
+Proof. exact rj_exact. Qed.
+Print Assumptions C10_reject_exact.
+
+(* Reject, the first refusing call: a slice or known-length write stores nothing of the refusing
+   chunk; a reader of unknown length has been copied up to exactly the limit *)
+Theorem C10_reject_first_refusal : forall c,
+  wf_cfg c -> active c -> c_action c = Reject -> forall ws k, writes_ok (ws ++ [k]) ->
+  blen (supplied ws) < L c -> L c <= blen (supplied (ws ++ [k])) ->
+  let s1 := tb_final c (init c) (ws ++ [k]) in
+  stored s1 = (if is_unknown k then firstn (Z.to_nat (L c)) (supplied (ws ++ [k])) else supplied ws)
+  /\ s_intr s1 = Some (limit_status (c_dir c)) /\ s_dataerr s1 = true.
+Proof. exact rj_first_refusal. Qed.
+Print Assumptions C10_reject_first_refusal.
+
+(* Reject, any continuation (also by a connector that ignores the refusal): never more than limit
+   bytes stored - strictly fewer unless an unknown-length reader was used -, the rejection and the
+   data-error flag are exactly "size reached the limit", the body phase is never self-invoked *)
+Theorem C10_after_refusal : forall c,
+  wf_cfg c -> active c -> c_action c = Reject -> forall ws, writes_ok ws ->
+  let s := tb_final c (init c) ws in
+  blen (stored s) <= L c
+  /\ (no_unknown ws = true -> blen (stored s) < L c)
+  /\ s_intr s = (if L c <=? blen (supplied ws) then Some (limit_status (c_dir c)) else None)
+  /\ s_dataerr s = (L c <=? blen (supplied ws))
+  /\ s_runs s = 0%nat.
+Proof. exact rj_bounds. Qed.
+Print Assumptions C10_after_refusal.
+
+(* what the code does when a refusal is ignored: a later chunk that fits IS stored, so the stored
+   bytes of a refused body need not be a prefix of it (stated so that nobody reads more into
+   C10_after_refusal; a refused body is outside what C10 promises) *)
+Theorem C10_after_ignored_refusal_stores_witness :
+  exists ws, writes_ok ws /\
+    stored (tb_final demo_cfg (init demo_cfg) ws) = [97; 98; 102]%N
+    /\ supplied ws = [97; 98; 99; 100; 101; 102]%N.
+Proof. exact rj_after_ignored_refusal_stores. Qed.
+Print Assumptions C10_after_ignored_refusal_stores_witness.
+
+(* ProcessPartial: after the writes and the connector's explicit Process...Body call (and whatever
+   follows) the body phase has been evaluated exactly once, over exactly the first min(limit, size)
+   bytes, which is also the value of REQUEST_BODY / RESPONSE_BODY *)
+Theorem C10_partial_exact : forall c,
+  wf_cfg c -> active c -> c_action c = ProcessPartial -> forall ws rest, writes_ok ws -> calls_ok rest ->
+  let s' := tb_final c (init c) (ws ++ ProcessBody :: rest) in
+  let x := firstn (Z.to_nat (L c)) (supplied ws) in
+  s_runs s' = 1%nat /\ s_seen s' = Some (var_after c [] x) /\ s_bodyvar s' = var_after c [] x
+  /\ s_phase s' = body_phase (c_dir c) /\ s_intr s' = deny_intr c.
+Proof. exact pp_explicit. Qed.
+Print Assumptions C10_partial_exact.
+
+(* ... the phase is self-invoked by the write that reaches the limit (over exactly limit bytes) ... *)
+Theorem C10_partial_at_limit : forall c,
+  wf_cfg c -> active c -> c_action c = ProcessPartial -> forall ws rest, writes_ok ws -> calls_ok rest ->
+  L c <= blen (supplied ws) ->
+  let s' := tb_final c (init c) (ws ++ rest) in
+  let x := firstn (Z.to_nat (L c)) (supplied ws) in
+  s_runs s' = 1%nat /\ s_seen s' = Some (var_after c [] x) /\ s_bodyvar s' = var_after c [] x
+  /\ blen x = L c.
+Proof. exact pp_at_limit. Qed.
+Print Assumptions C10_partial_at_limit.
+
+(* ... and not before *)
+Theorem C10_partial_not_before : forall c,
+  wf_cfg c -> active c -> c_action c = ProcessPartial -> forall ws, writes_ok ws -> blen (supplied ws) < L c ->
+  s_runs (tb_final c (init c) ws) = 0%nat
+  /\ s_phase (tb_final c (init c) ws) = hdr_phase (c_dir c).
+Proof. exact pp_not_before. Qed.
+Print Assumptions C10_partial_not_before.
+
+(* ProcessPartial: once limit bytes are held every later write is ignored: state unchanged, n = 0, no
+   error (and no interruption returned by that call) *)
+Theorem C10_partial_later_ignored : forall c,
+  wf_cfg c -> active c -> c_action c = ProcessPartial -> forall ks k, calls_ok ks -> is_write k = true ->
+  L c <= blen (supplied ks) ->
+  tb_step c (tb_final c (init c) ks) k = (tb_final c (init c) ks, mk_ret None 0 false).
+Proof. exact pp_later_ignored. Qed.
+Print Assumptions C10_partial_later_ignored.
+
+(* ProcessPartial: n is the number of bytes the call added to the buffer; no error, no panic *)
+Theorem C10_partial_returns : forall c,
+  wf_cfg c -> active c -> c_action c = ProcessPartial -> forall ks k, calls_ok ks -> is_write k = true -> realistic k ->
+  let s := tb_final c (init c) ks in
+  let '(s1, r) := tb_step c s k in
+  r_err r = false /\ r_panic r = false /\ r_n r = blen (stored s1) - blen (stored s).
+Proof. exact pp_ret. Qed.
+Print Assumptions C10_partial_returns.
+
+(* the body variable is the buffer content whenever a body processor (request) / a processable
+   content type (response) makes it visible *)
+Theorem C10_variables : forall c x, c_access c = true -> body_visible c -> var_after c [] x = x.
+Proof. exact var_after_visible. Qed.
+Print Assumptions C10_variables.
+
+(* Reject: the explicit body phase after an accepted body sees exactly the supplied bytes *)
+Theorem C10_reject_then_process : forall c,
+  wf_cfg c -> active c -> c_action c = Reject -> forall ws, writes_ok ws -> blen (supplied ws) < L c ->
+  let s' := fst (tb_step c (tb_final c (init c) ws) ProcessBody) in
+  s_runs s' = 1%nat /\ s_seen s' = Some (var_after c [] (supplied ws))
+  /\ s_bodyvar s' = var_after c [] (supplied ws) /\ stored s' = supplied ws.
+Proof. exact rj_then_process. Qed.
+Print Assumptions C10_reject_then_process.
+
+(* memory or file: for any two memory limits, every call sequence (any entry points, explicit phase
+   calls, ctl limit changes, any starting phase) returns the same values and leaves the same readable
+   bytes, body variable, phase bookkeeping and flags *)
+Theorem C10_memory_file_agree : forall c m1 m2 ph ks, 0 <= m1 -> 0 <= m2 ->
+  let c1 := with_mem c m1 in let c2 := with_mem c m2 in
+  let s1 := tb_final c1 (tb_init c1 ph) ks in let s2 := tb_final c2 (tb_init c2 ph) ks in
+  tb_rets c1 (tb_init c1 ph) ks = tb_rets c2 (tb_init c2 ph) ks
+  /\ stored s1 = stored s2 /\ s_bodyvar s1 = s_bodyvar s2 /\ s_seen s1 = s_seen s2
+  /\ s_intr s1 = s_intr s2 /\ s_dataerr s1 = s_dataerr s2 /\ s_runs s1 = s_runs s2 /\ s_phase s1 = s_phase s2.
+Proof. exact memory_file_agree. Qed.
+Print Assumptions C10_memory_file_agree.
+
+(* the spill file is in use exactly when more than the memory limit is stored *)
+Theorem C10_spill_exact : forall c ph ks, 0 <= bo_mem (c_opt c) ->
+  let s := tb_final c (tb_init c ph) ks in
+  (bb_spilled (s_buf s) = true <-> bo_mem (c_opt c) < blen (stored s)).
+Proof. exact spill_exact. Qed.
+Print Assumptions C10_spill_exact.
+
+(* every independent reader, whatever its read sizes, walks the stored sequence; once its buffers add
+   up to the stored length it has returned all of it *)
+Theorem C10_reader_complete : forall b ns,
+  bbr_drain b 0 ns = firstn (fold_right Nat.add 0%nat ns) (bb_contents b)
+  /\ ((length (bb_contents b) <= fold_right Nat.add 0%nat ns)%nat -> bbr_drain b 0 ns = bb_contents b).
+Proof. intros b ns. split; [apply (bbr_drain_spec b ns 0) | apply bbr_drain_all]. Qed.
+Print Assumptions C10_reader_complete.
+
+(* a bare buffer: a write that does not exceed the limit appends exactly the data (memory or file) *)
+Theorem C10_buffer_write_appends : forall o b d,
+  bb_inv o b -> bb_len b + blen d <= bo_limit o ->
+  exists b', bb_write o b d = (b', blen d, false) /\ bb_contents b' = bb_contents b ++ d
+             /\ bb_len b' = bb_len b + blen d /\ bb_inv o b'.
+Proof. exact bb_write_ok. Qed.
+Print Assumptions C10_buffer_write_appends.
+
+(* the slice expression b[:writingBytes] is in range for every state and every call, including after
+   ctl changed the limit to anything (commit 71fdc14) *)
+Theorem C10_no_panic : forall c ks s, Forall (fun r => r_panic r = false) (tb_rets c s ks).
+Proof. exact run_no_panic. Qed.
+Print Assumptions C10_no_panic.
+
+(* body access off or engine off: no write entry point buffers or evaluates anything *)
+Theorem C10_inactive_noop : forall c s k,
+  c_engine_on c = false \/ c_access c = false -> is_write k = true ->
+  tb_step c s k = (s, mk_ret None 0 false).
+Proof. exact inactive_noop. Qed.
+Print Assumptions C10_inactive_noop.
